@@ -23,6 +23,7 @@ import (
 	"reflect"
 	"sort"
 	"strings"
+	"time"
 
 	"seehuhn.de/go/postscript/type1/names"
 	"seehuhn.de/go/sfnt/glyph"
@@ -43,6 +44,8 @@ import (
 const (
 	sigShare  = "identity-cid-encoder:same-glyph-different-text"
 	sigRecode = "cidenc-fromcmap:code-remapped-by-child-cmap"
+	sigParent = "cmap-with-parent:codespace-of-parent-ignored"
+	sigTJ     = "textshowglyphs:tj-array-overwritten-after-rise-change"
 	widthTol  = 0.0005 + 1e-9 // widths are rounded to 1/1000 text space unit
 	agreeTol  = 1e-9
 	sigPrefix = "c14:"
@@ -188,26 +191,26 @@ type gkey struct {
 }
 
 type shown struct {
-	font  int
-	gid   glyph.ID
-	text  string
-	code  string // code bytes
-	share bool   // the code is already owned by the same glyph with another text (identity encoder)
-	recoded bool // NewFromCMap returned a code which the CMap maps to another CID
+	font    int
+	gid     glyph.ID
+	text    string
+	code    string // code bytes
+	share   bool   // the code is already owned by the same glyph with another text (identity encoder)
+	recoded bool   // NewFromCMap returned a code which the CMap maps to another CID
 }
 
 type liveFont struct {
-	k        kind
-	F        font.Layouter
-	tr       *tracer
-	api      simpleAPI
-	rep      *repertoire
-	keys     map[gkey]string
-	owner    map[string]gkey
-	overflow bool
-	size     float64
-	shared   map[gkey]bool
-	cidw     *tracedCID // composite fonts: the tracing encoder
+	k            kind
+	F            font.Layouter
+	tr           *tracer
+	api          simpleAPI
+	rep          *repertoire
+	keys         map[gkey]string
+	owner        map[string]gkey
+	overflow     bool
+	size         float64
+	shared       map[gkey]bool
+	cidw         *tracedCID // composite fonts: the tracing encoder
 	recodedCodes map[string]bool
 }
 
@@ -259,7 +262,24 @@ func failRecode(what string, c any) {
 	}
 }
 
+// docOverride: while a document is processed one of whose fonts uses a CMap with a
+// parent (usecmap), every failure is the known finding sigParent: the reader builds
+// the font's codec from the child's own (empty) code space ranges.
+var (
+	docOverride string
+	nOverrideBy = map[string]int{}
+	riseDocs    int
+)
+
 func fail(sig, what string, c any) {
+	if docOverride != "" && sig != sigShare && sig != sigRecode {
+		nOverrideBy[docOverride]++
+		if nOverrideBy[docOverride] > 6 {
+			return
+		}
+		what = what + " [" + sig + "]"
+		sig = docOverride
+	}
 	e.Fail(sigPrefix+sig, what, c)
 }
 
@@ -328,10 +348,10 @@ func (lf *liveFont) encode(g font.Glyph, fontIdx int) (shown, bool) {
 		if ow, taken := lf.owner[cb]; taken && ow != key {
 			c := map[string]any{"font": lf.k.label, "gid": g.GID, "text": g.Text, "first_gid": ow.gid, "first_text": ow.text, "code": fmt.Sprintf("%x", cb)}
 			switch {
-			case lf.k.enc == "identity" && ow.gid == g.GID && g.GID != 0:
+			case (lf.k.enc == "identity" || lf.k.enc == "cmap") && ow.gid == g.GID && g.GID != 0:
 				sh.share = true
 				lf.shared[key] = true
-				failShare( fmt.Sprintf("%s: glyph %d shown with text %q and %q has the single code %x", lf.k.label, g.GID, ow.text, g.Text, cb), c)
+				failShare(fmt.Sprintf("%s: glyph %d shown with text %q and %q has the single code %x", lf.k.label, g.GID, ow.text, g.Text, cb), c)
 			case g.GID == 0 && ow.gid == 0:
 				// .notdef shown for characters outside the font's repertoire: outside the property
 				sh.share = true
@@ -367,8 +387,13 @@ func runDocument(p docPlan, label string) {
 		panic(err)
 	}
 	fonts := make([]*liveFont, len(p.kinds))
+	docOverride = ""
+	defer func() { docOverride = "" }()
 	for i, ki := range p.kinds {
 		fonts[i] = newLiveFont(kinds[ki])
+		if kinds[ki].parentCMap {
+			docOverride = sigParent
+		}
 	}
 	var labels []string
 	for _, lf := range fonts {
@@ -384,8 +409,91 @@ func runDocument(p docPlan, label string) {
 	}
 	doc.TextBegin()
 	doc.TextFirstLine(36, 800)
+	// kerning and rise: a quarter of the documents adjust advances (TJ arrays with
+	// numbers), another quarter also change the text rise inside a sequence, so that
+	// one TextShowGlyphs call emits several TJ operators
+	var scratch []byte
+	layoutMode := e.Rand.IntN(4)
+	if len(p.fixed) > 0 {
+		layoutMode = 3
+	}
+	caseInfo["layout"] = layoutMode
 	show := func(pd pending) {
 		lf := fonts[pd.f]
+		if layoutMode <= 1 && len(pd.seq.Seq) > 0 {
+			kerned := false
+			for i := range pd.seq.Seq {
+				if e.Rand.IntN(2) == 0 {
+					pd.seq.Seq[i].Advance += float64(e.Rand.IntN(25)-10) / 10
+					kerned = true
+				}
+			}
+			if layoutMode == 0 && len(pd.seq.Seq) > 1 {
+				rise := 0.0
+				changes := 0
+				for i := range pd.seq.Seq {
+					if i > 0 && e.Rand.IntN(3) == 0 {
+						rise = float64(e.Rand.IntN(7) - 2)
+					}
+					if i > 0 && rise != pd.seq.Seq[i-1].Rise {
+						changes++
+					}
+					pd.seq.Seq[i].Rise = rise
+				}
+				// (the fonts' own kerning also puts numbers into the TJ array)
+				_ = kerned
+				if changes > 0 && docOverride == "" {
+					// known finding: TextShowGlyphs re-uses the TJ array it has just emitted
+					docOverride = sigTJ
+					riseDocs++
+				}
+			}
+		}
+		if layoutMode == 2 {
+			// the raw text operators, called the way a caller with its own buffer would:
+			// the byte slices handed over are re-used (overwritten) right after the call
+			doc.TextSetFont(lf.F, lf.size)
+			var cuts []int
+			scratch = scratch[:0]
+			for _, g := range pd.seq.Seq {
+				if sh, ok := lf.encode(g, pd.f); ok {
+					expect = append(expect, sh)
+					scratch = append(scratch, sh.code...)
+					cuts = append(cuts, len(scratch))
+				}
+			}
+			if len(cuts) > 0 {
+				switch e.Rand.IntN(4) {
+				case 0:
+					doc.TextShowRaw(pdf.String(scratch))
+				case 1:
+					doc.TextShowNextLineRaw(pdf.String(scratch))
+				case 2:
+					doc.TextShowSpacedRaw(float64(e.Rand.IntN(3)), float64(e.Rand.IntN(2)), pdf.String(scratch))
+				default:
+					var args []pdf.Object
+					start := 0
+					for i, c := range cuts {
+						if i == len(cuts)-1 || e.Rand.IntN(3) == 0 {
+							args = append(args, pdf.String(scratch[start:c]))
+							start = c
+							if i < len(cuts)-1 {
+								args = append(args, pdf.Integer(e.Rand.IntN(200)-100))
+							}
+						}
+					}
+					doc.TextShowKernedRaw(args...)
+					for i := range args {
+						args[i] = pdf.Integer(0) // the caller's argument slice is re-used as well
+					}
+				}
+				for i := range scratch {
+					scratch[i] = 0xAA
+				}
+			}
+			doc.TextSecondLine(0, -3)
+			return
+		}
 		for _, g := range pd.seq.Seq {
 			if sh, ok := lf.encode(g, pd.f); ok {
 				expect = append(expect, sh)
@@ -468,6 +576,7 @@ func runDocument(p docPlan, label string) {
 			e.Dist["doc:simple-font-with-all-256-codes-used"]++
 		}
 	}
+	e.Dist[[]string{"doc:layout:kerning+rise-changes", "doc:layout:kerning", "doc:layout:raw-operators-reused-buffer", "doc:layout:plain"}[layoutMode]]++
 	class := fmt.Sprintf("doc:%s:n=%d", map[int]string{0: "latin", 1: "mixed", 2: "nonlatin", 3: "ligatures", 4: "wide", 5: "overflow"}[p.class], len(fonts))
 	key := fmt.Sprintf("%v|%v|%v", labels, p.version, texts)
 	if err != nil {
@@ -563,6 +672,8 @@ func readBack(data []byte, fonts []*liveFont, expect []shown, caseInfo map[strin
 	pos := 0
 	bad := false
 	seenFont := map[int]font.Instance{}
+	resName := map[int]pdf.Name{}
+	var curName pdf.Name
 	compare := func(s pdf.String) {
 		if bad {
 			return
@@ -599,6 +710,7 @@ func readBack(data []byte, fonts []*liveFont, expect []shown, caseInfo map[strin
 		}
 		lf := fonts[fi]
 		seenFont[fi] = G
+		resName[fi] = curName
 		if !bytes.Equal(codes, s) {
 			bad = true
 			fail("count", fmt.Sprintf("%s: PDF string %x is not the codes of the glyphs shown %x", lf.k.label, []byte(s), codes), caseInfo)
@@ -637,7 +749,7 @@ func readBack(data []byte, fonts []*liveFont, expect []shown, caseInfo map[strin
 				// text of .notdef: characters outside the repertoire are outside the property
 			case rc[i].Text == sh.text:
 			case sh.share && lf.owner[sh.code].text == rc[i].Text:
-				failShare( fmt.Sprintf("%s: glyph %d shown with text %q reads back with text %q", lf.k.label, sh.gid, sh.text, rc[i].Text), ci)
+				failShare(fmt.Sprintf("%s: glyph %d shown with text %q reads back with text %q", lf.k.label, sh.gid, sh.text, rc[i].Text), ci)
 			default:
 				fail("text", fmt.Sprintf("%s: glyph %d shown with text %q reads back with text %q", lf.k.label, sh.gid, sh.text, rc[i].Text), ci)
 			}
@@ -645,6 +757,10 @@ func readBack(data []byte, fonts []*liveFont, expect []shown, caseInfo map[strin
 	}
 	rd.EveryOp = func(op string, args []pdf.Object) error {
 		switch op {
+		case "Tf":
+			if len(args) > 0 {
+				curName, _ = args[0].(pdf.Name)
+			}
 		case "Tj", "'", "\"":
 			if len(args) > 0 {
 				if s, ok := args[len(args)-1].(pdf.String); ok {
@@ -672,8 +788,17 @@ func readBack(data []byte, fonts []*liveFont, expect []shown, caseInfo map[strin
 		fail("count", fmt.Sprintf("%v: %d glyphs shown, %d codes in the PDF strings, %d Character callbacks", labels, len(expect), pos, nChar), caseInfo)
 	}
 	// the text a reader derives, per used code, against the model of SimpleTextMap
+	var fontRes pdf.Dict
+	if pd, err := getDict(r, pageDict); err == nil {
+		if res, err := getDict(r, pd["Resources"]); err == nil {
+			fontRes, _ = getDict(r, res["Font"])
+		}
+	}
 	for fi, G := range seenFont {
 		fonts[fi].textCase(G)
+		if raw, err := getDict(r, fontRes[resName[fi]]); err == nil {
+			fonts[fi].encodingCase(r, G, raw, caseInfo)
+		}
 	}
 }
 
@@ -761,12 +886,91 @@ func dash(s string) string {
 func main() {
 	e = common.New(14)
 	kinds = allKinds()
-	corpus()
-	encoderLevel()
-	widthTables()
-	documents()
+	encodingSetup()
+	stage := func(name string, f func()) {
+		t0 := time.Now()
+		f()
+		if os.Getenv("C14_DEBUG") != "" {
+			fmt.Fprintf(os.Stderr, "stage %s: %v\n", name, time.Since(t0))
+		}
+	}
+	stage("corpus", corpus)
+	stage("encoders", encoderLevel)
+	stage("widths", widthTables)
+	stage("encodings", encodingCases)
+	stage("documents", documents)
 	e.Finish(
 		"trace refinement: every GetCode/Encode of the real simple/UTF-8/identity encoders (driven directly and inside every font kind while documents are laid out) replayed by the extracted model with the implementation's code as angelic choice; width tables: /W and /Widths written by font/dict decoded by the model and by graphics/extract; end to end: documents with 1-3 fonts written, reopened, read with reader.Reader and compared glyph by glyph (count, width, text, writer vs reader, code sharing)",
 		map[string]any{"font_kinds": len(kinds)},
 	)
+}
+
+// encodingCase: the /Encoding object of the font dictionary in the file, decoded by the
+// model and by the implementation; the reader's glyph name of every used code must be
+// the name the writer chose.
+func (lf *liveFont) encodingCase(r pdf.Getter, G font.Instance, raw pdf.Dict, caseInfo map[string]any) {
+	if lf.api == nil {
+		return
+	}
+	gd, ok := G.(interface{ GetDict() dict.Dict })
+	if !ok {
+		return
+	}
+	var enc func(byte) string
+	nse := false
+	type3 := false
+	switch d := gd.GetDict().(type) {
+	case *dict.TrueType:
+		enc = d.Encoding
+		nse = d.Descriptor != nil && !d.Descriptor.IsSymbolic && d.FontFile == nil
+	case *dict.Type1:
+		enc = d.Encoding
+		nse = d.Descriptor != nil && !d.Descriptor.IsSymbolic && d.FontFile == nil
+	case *dict.Type3:
+		enc = d.Encoding
+		type3 = true
+	default:
+		return
+	}
+	var used []int
+	for c := range lf.api.MappedCodes() {
+		used = append(used, int(c))
+	}
+	sort.Ints(used)
+	builtin := true
+	for _, c := range used {
+		if enc(byte(c)) != "@" {
+			builtin = false
+		}
+	}
+	for _, c := range used {
+		want := lf.api.GlyphName(lf.api.GID(byte(c)))
+		if !builtin && enc(byte(c)) != want {
+			fail("encoding:glyph-name", fmt.Sprintf("%s: code %d shows glyph %q, the reader's encoding names %q", lf.k.label, c, want, enc(byte(c))), caseInfo)
+			break
+		}
+	}
+	e.Dist["encoding:real-dictionary"]++
+	if type3 {
+		encObj, _ := getDict(r, raw["Encoding"])
+		arr, _ := getArray(r, encObj["Differences"])
+		items, n := showItems(r, arr, false)
+		id := nextID()
+		e.Line("cases.txt", "%s E3R %d %s", id, n, items)
+		e.Line("impl.obs", "%s %s", id, all256(enc))
+		return
+	}
+	wire, ok := encObjWire(r, raw["Encoding"])
+	if !ok {
+		return
+	}
+	var parts []string
+	var cs strings.Builder
+	for _, c := range used {
+		parts = append(parts, fmt.Sprintf("%d:%s", c, thex(enc(byte(c)))))
+		fmt.Fprintf(&cs, " %d", c)
+	}
+	id := nextID()
+	e.Line("cases.txt", "%s ER %s %s %d%s", id, b01(nse), wire, len(used), cs.String())
+	e.Line("impl.obs", "%s %s", id, dash(strings.Join(parts, ",")))
 }
